@@ -1,5 +1,88 @@
 import PkVerif.Drv.Common
-/-! `pkmodel-c09`: stub (property not built yet). -/
+import PkVerif.Model.SearchPage
+import PkVerif.Gen.Facts
+/-! `pkmodel-c09`: the search-paging model behind the line protocol of harness/props/c09. -/
 namespace Pk.Drv.C09
-def machine : Machine := { σ := Unit, init := (), step := fun s _ => (s, "bad-op") }
+open Pk Pk.Ref Pk.SearchPage
+
+def tbl : Tbl := ⟨Gen.refSizes, Gen.testRefTypes, Gen.maxOtherDigestLen⟩
+
+/-- canonical decimal integer -/
+def intArg (s : String) : Option Int :=
+  match s.toInt? with
+  | none => none
+  | some n => if toString n == s then some n else none
+
+/-- an instant of the years 0..9999, as true nanoseconds since the epoch -/
+def timeArg (s : String) : Option Int :=
+  match intArg s with
+  | none => none
+  | some n =>
+    let sec := n.ediv 1000000000
+    if -62167219200 ≤ sec ∧ sec ≤ 253402300799 then some n else none
+
+/-- a claim date: not the zero Time, not within the first second of 1970 (`Time3339.IsAnyZero`) -/
+def claimDateArg (s : String) : Option Int :=
+  match timeArg s with
+  | none => none
+  | some n => if n = zeroTime ∨ (0 ≤ n ∧ n < 1000000000) then none else some n
+
+def listArg (s : String) : Option (List Int) :=
+  if s == "-" then some [] else (s.splitOn ",").mapM claimDateArg
+
+def refArg (s : String) : Option Ref :=
+  match hexArg s with
+  | none => none
+  | some b => parse tbl b true
+
+def showTime : Option Int → String
+  | none => "none"
+  | some t => toString t
+
+def indexOfRef (w : List PN) (k : RefKey) : String :=
+  match w.findIdx? (fun p => p.ref == k) with
+  | none => "?"
+  | some i => toString i
+
+def showBlobs (w : List PN) (bs : List Cand) : String :=
+  if bs.isEmpty then "-" else ",".intercalate (bs.map (fun c => indexOfRef w c.2))
+
+def doQuery (w : List PN) (srt cons lim : String) (cont : Option String) (around : Option String) : String :=
+  let srt? : Option SortBy := if srt == "c" then some .created else if srt == "m" then some .lastMod else none
+  let cons? : Option Cons := if cons == "all" then some .all else if cons == "a" then some .tagA else if cons == "b" then some .tagB else none
+  let lim? := (intArg lim).bind (fun n => if -2147483648 ≤ n ∧ n ≤ 2147483647 then some n else none)
+  let cont? : Option Bytes := match cont with | none => some [] | some c => hexArg c
+  let around? : Option (Option Ref) := match around with | none => some none | some a => (refArg a).map some
+  match srt?, cons?, lim?, cont?, around? with
+  | some s, some c, some l, some ct, some ar =>
+    match query tbl true w ⟨s, c, l, ct, ar⟩ with
+    | none => "err"
+    | some r => s!"ok {showBlobs w r.blobs} {toHexString r.cont}"
+  | _, _, _, _, _ => "bad-op"
+
+def step (w : List PN) (ws : List String) : List PN × String :=
+  match ws with
+  | ["pn", key, refhex, dc, tags, ds] =>
+    let keyOk : Bool := key.toList.all (fun c => c.isLower || c.isDigit)
+    let dc? : Option (Option Int) := if dc == "none" then some none else (timeArg dc).map some
+    let tags? : Option (Bool × Bool) :=
+      if tags == "-" then some (false, false) else if tags == "a" then some (true, false)
+      else if tags == "b" then some (false, true) else if tags == "ab" then some (true, true) else none
+    match keyOk, refArg refhex, dc?, tags?, listArg ds with
+    | true, some r, some dcv, some (ta, tb), some dates =>
+      let need := (if dcv.isSome then 1 else 0) + (if ta then 1 else 0) + (if tb then 1 else 0)
+      let k : RefKey := ⟨r.name, r.sum⟩
+      -- claims that carry attributes are dated before 2020-09-13 (claims after time.Now() are not in effect)
+      if r.odd || need > dates.length || w.any (fun p => p.ref == k)
+          || (dates.take need).any (fun d => decide (1600000000000000000 ≤ d)) then (w, "bad-op") else
+      let p : PN := ⟨k, dcv, ta, tb, dates⟩
+      (w ++ [p], s!"ok {showTime (permanodeAnyTime p)} {showTime (permanodeModtime p)}")
+    | _, _, _, _, _ => (w, "bad-op")
+  | ["q", srt, cons, lim, cont] => (w, doQuery w srt cons lim (some cont) none)
+  | ["ar", srt, cons, lim, piv] => (w, doQuery w srt cons lim none (some piv))
+  | ["ar", srt, cons, lim, piv, cont] => (w, doQuery w srt cons lim (some cont) (some piv))
+  | _ => (w, "bad-op")
+
+def machine : Machine := { σ := List PN, init := [], step := step }
+
 end Pk.Drv.C09
